@@ -21,7 +21,8 @@ RULE = (
     "all dyadic; plus, for every start/length/flag, every (duration, hop) pair in which at least one of the two is "
     "non-positive. Per valid case four calls: the call under test, the same call again, the same call on a parent "
     "with another uuid and equal bounds, and the same call with twice the hop (windows with equal bounds must get "
-    "equal ids). A case is non-trivial when duration and hop are valid and at least two hop-lattice points lie "
+    "equal ids); with include_incomplete a fifth call with the same hop and twice the duration (equal bounds <=> equal "
+    "ids across the two calls; the class suffix xdur_trunc0/1/2+ counts coinciding windows clamped in at least one call). A case is non-trivial when duration and hop are valid and at least two hop-lattice points lie "
     "inside the clip (so ordering, spacing and the trailing window are exercised); distinct = distinct descriptor. "
     "Outcome class = hop vs duration, hop divides length or not, number of windows of the model (0/1/2+), flag."
 )
@@ -39,7 +40,8 @@ ASSUMPTIONS = [
     "list(); laziness of the error is not judged",
     "'same recording' is judged by equality of the Recording objects (and of their uuid), not identity",
     "the exact uuid5 recipe is not judged, only: repeatable, distinct within a call, different for another parent "
-    "uuid, equal for equal (parent, bounds) reached through another hop",
+    "uuid, equal for equal (parent, bounds) reached through another hop or (with include_incomplete) through twice the "
+    "duration; distinctness is only required within one call, as the statement says",
     "covers_clip_when_hop_le_duration is judged only with include_incomplete=True and a non-empty clip (without the "
     "flag the statement does not promise coverage)",
 ]
@@ -298,6 +300,31 @@ def run_case(case):
         diff = [(t[1], t[2]) for t in s4 if (t[1], t[2]) in by_bounds and by_bounds[(t[1], t[2])] != t[0]]
         if diff:
             problems.append(("not_a_function_of_parent_and_bounds", diff, "equal ids for equal bounds"))
+    # with include_incomplete: the same hop with twice the duration. Every truncated window (a, e) of the first call is
+    # also a window of the second one, and a complete window ending at e becomes the truncated (a, e) there: equal
+    # bounds must give equal ids, different bounds different ids (ids are a function of parent and *yielded* bounds)
+    if incl:
+        r5 = call(parent, 2 * d, heff, True)
+        out.transitions = 5
+        try:
+            s5 = sig(r5)
+        except Exception as ex:  # noqa
+            out.fail("ids", ["unreadable", type(ex).__name__], "clips with uuid", _cls("unreadable"))
+            return out
+        if r5[0] != "ok":
+            problems.append(("double_duration_call_failed", s5, "ok"))
+        else:
+            by_bounds = {(t[1], t[2]): t[0] for t in s1}
+            by_id = {t[0]: (t[1], t[2]) for t in s1}
+            common = [t for t in s5 if (t[1], t[2]) in by_bounds]
+            ntrunc = sum(1 for t in common if F(t[1]) + 2 * fd > fe)  # coinciding windows clamped in at least one call
+            out.klass += ":xdur_trunc" + ("2+" if ntrunc >= 2 else str(ntrunc))
+            diff = [[t[1], t[2]] for t in common if by_bounds[(t[1], t[2])] != t[0]]
+            if diff:
+                problems.append(("not_a_function_of_bounds_across_durations", diff,
+                                 "equal ids for equal (parent, start, end) whatever the duration argument"))
+            # (different bounds across two calls getting the same id is NOT judged: the statement only requires ids to be
+            # distinct within one call)
     if not ids1 and not problems:
         out.vac("ids")
     elif not problems:
